@@ -133,6 +133,8 @@ def verify_block(subject_kind):
         r.hook('pgpy.pgp.PGPSignature', '__sig__', scn.const(E.VStr(s=('opaque', 'sigints'))))
         r.hook('pgpy.pgp.PGPSignature', 'hash_algorithm', scn.const(E.VInt(8, enum='pgpy.constants.HashAlgorithm')))
         r.hook('pgpy.pgp.PGPSignature', 'key_algorithm', scn.const(E.VInt(22, enum='pgpy.constants.PubKeyAlgorithm')))
+        for meth in ('__bytearray__', '__bytes__'):
+            r.hook('pgpy.pgp.PGPSignature', meth, scn.method_hook(lambda ex, st, o, a: [(st, E.VBytes(z3.Const('PACKET_OCTETS_OF_THE_SIGNATURE', E.BYTES)))]))
         r.hook('pgpy.pgp.PGPKey', 'check_soundness', scn.mconst(E.VInt(sound, enum=SI)))
         r.hook('pgpy.pgp.PGPKey', 'check_primitives', scn.mconst(E.VInt(prim, enum=SI)))
         added = []
@@ -397,6 +399,10 @@ def verify_collect(subject_kind):
         r.hook(SIGC, '__sig__', scn.const(E.VStr(s=('opaque', 'sigints'))))
         r.hook(SIGC, 'hash_algorithm', scn.const(E.VInt(8, enum='pgpy.constants.HashAlgorithm')))
         r.hook('pgpy.packet.packets.PubKeyV4', 'verify', scn.mconst(E.VBool(z3.Bool('crypto_ok'))))
+        # the octets of the signature packets are arbitrary: two of the collected signatures may well be the same packet (a certification
+        # copied onto another identity, a key merged from two sources) - each pair is examined all the same, for its own subject
+        for meth in ('__bytearray__', '__bytes__'):
+            r.hook(SIGC, meth, scn.method_hook(lambda ex, st, o, a: [(st, E.VBytes(z3.Const('PACKET_OCTETS_OF_%s' % o.ref, E.BYTES)))]))
 
         def add(ex, st, o, a):
             st.ghost['examined'] = st.ghost.get('examined', ()) + (('own', a[0], a[2]),)
